@@ -1,829 +1,410 @@
-(** * TIE "graphs": the iteration-graph enumeration REGENERATED from
-    /repo/src/tensora/desugar/_to_iteration_graphs.py (gen/IterGraphs.v) is the hand model
-    model/Graphs.v (+ the filter of commit 601f2d3, see [to_iteration_graphs_src] below):
-    same list of graphs, same order, same exception class.
-
-    Direction of the statements: for every MODEL input [x], [gen_f (up x) = up (model_f x)], where
-    [up] embeds model values into the regenerated types (ids [n] become Python's ["n_name"], orderings
-    become [Z], float literals go through an arbitrary [fval : string -> F], SumNode names are erased
-    to the one constant the translation uses).  [up] is injective on everything the model compares. *)
+(** * TIE "graphs": final statements (base lemmas: GenGraphs_base.v; simplify_add: GenGraphs_simplify.v) *)
 From Coq Require Import ZArith List Bool String Lia Arith ZifyBool.
 From TV Require Import spec.Num spec.PyBase spec.PyLib model.GraphsIter.
 From TV Require Import gen.ExhaustAst gen.Exhaust gen.Desugar.
 From TV Require model.Graphs model.OutputOrder.
-From TV Require Import proofs.GraphsInd proofs.PyLibFacts.
-From TV Require proofs.GraphsAssign proofs.GraphsOrders proofs.GraphsSimplify proofs.OutputOrderWalk.
+From TV Require Import proofs.GraphsInd.
 From TV Require Import gen.IterGraphs.
+From TV Require Export proofs.GenGraphs_base proofs.GenGraphs_simplify.
 Import ListNotations.
 Open Scope list_scope.
 
-Module M := TV.model.Graphs.
-
-(** ** embedding of model values *)
-Definition up_mode (m : M.mode) : Mode :=
-  match m with M.Dense => Mode_dense | M.Compressed => Mode_compressed end.
-
-Definition up_tref (t : M.tref) : id_expr :=
-  IdTensor (show_Z (Z.of_nat (M.t_id t)) ++ "_" ++ M.t_name t)%string (M.t_name t) (M.t_indexes t)
-           (map up_mode (M.t_modes t)).
-
-Definition up_ol (o : M.olayer) : TensorLayer :=
-  MkTensorLayer (up_tref (M.ol_tensor o)) (Z.of_nat (M.ol_layer o)).
-
-Definition sum_name : string := ("sum_" ++ show_Z sum_counter_value)%string.
-
-Definition up_format (f : M.format) : Format :=
-  MkFormat (map up_mode (M.f_modes f)) (map Z.of_nat (M.f_ordering f)).
-
-Definition up_formats (fs : M.formats) : pydict string Format :=
-  map (fun kf => (fst kf, up_format (snd kf))) fs.
-
-Section WithFloats.
-Variable fval : string -> F.
-
-Fixpoint up_iexpr (e : M.iexpr) : id_expr :=
-  match e with
-  | M.IInteger v => IdInteger v
-  | M.IFloat h => IdFloat (fval h)
-  | M.ITensor t => up_tref t
-  | M.IAdd l r => IdAdd (up_iexpr l) (up_iexpr r)
-  | M.IMultiply l r => IdMultiply (up_iexpr l) (up_iexpr r)
-  end.
-
-Fixpoint up_graph (g : M.graph) : ig_graph :=
-  match g with
-  | M.TerminalNode e => IgTerminalNode (up_iexpr e)
-  | M.IterationNode i o n => IgIterationNode i (option_map up_ol o) (up_graph n)
-  | M.SumNode _ ts => IgSumNode sum_name (map up_graph ts)
-  end.
-
-Fixpoint up_dexpr (e : M.dexpr) : de_expr :=
-  match e with
-  | M.DInteger v => DeInteger v
-  | M.DFloat h => DeFloat (fval h)
-  | M.DTensor t => DeTensor (Z.of_nat (M.d_id t)) (M.d_name t) (M.d_indexes t)
-  | M.DAdd l r => DeAdd (up_dexpr l) (up_dexpr r)
-  | M.DMultiply l r => DeMultiply (up_dexpr l) (up_dexpr r)
-  | M.DContract i x => DeContract i (up_dexpr x)
-  end.
-
-Definition up_assign (a : M.dassign) : de_assignment :=
-  DeAssignment (up_dexpr (M.DTensor (M.a_target a))) (up_dexpr (M.a_expr a)).
-
-(** a model result as a generator run to completion: nothing is yielded before an exception *)
-Definition up_res (exc_ill : string) (r : M.res (list M.graph)) : pgen ig_graph :=
-  match r with
-  | M.ROk gs => (map up_graph gs, None)
-  | M.RDiagonal => ([], Some "DiagonalAccessError"%string)
-  | M.RIllFormed => ([], Some exc_ill)
-  end.
-
-(** ** generators that do not raise *)
-Lemma g_for_items_pure : forall A B (h : B -> list A) (body : B -> pgen A) items,
-  (forall x, In x items -> body x = (h x, None)) ->
-  g_for_items body items None = (flat_map h items, None).
-Proof.
-  induction items as [|x r IH]; intros Hb; simpl; [reflexivity|].
-  rewrite (Hb x (or_introl eq_refl)). rewrite IH by (intros; apply Hb; now right). reflexivity.
-Qed.
-
-Lemma g_for_pure : forall A B (h : B -> list A) (body : B -> pgen A) items,
-  (forall x, In x items -> body x = (h x, None)) ->
-  g_for (items, None) body = (flat_map h items, None).
-Proof. intros. unfold g_for. simpl. now apply g_for_items_pure. Qed.
-
-Lemma flat_map_single : forall A B (f : A -> B) l, flat_map (fun x => [f x]) l = map f l.
-Proof. induction l; simpl; congruence. Qed.
-
-Lemma g_for_map : forall A B C (f : C -> B) (body : B -> pgen A) items stop,
-  g_for (map f items, stop) body = g_for (items, stop) (fun x => body (f x)).
-Proof.
-  intros. unfold g_for. simpl. induction items as [|x r IH]; simpl; [reflexivity|]. now rewrite IH.
-Qed.
-
-Lemma g_for_yield : forall A B (f : B -> A) items,
-  g_for (items, None) (fun x => g_yield (f x)) = (map f items, None).
-Proof.
-  intros. unfold g_for. simpl. induction items as [|x r IH]; simpl; [reflexivity|].
-  rewrite IH. reflexivity.
-Qed.
-
-Lemma g_for_raise : forall A B (body : B -> pgen A) e, g_for ([], Some e) body = ([], Some e).
-Proof. reflexivity. Qed.
-
-Lemma g_seq_pure : forall A (a b : list A), g_seq (a, None) (b, None) = (a ++ b, None).
-Proof. reflexivity. Qed.
-
-Lemma map_map_up : forall (f : M.graph -> M.graph) (g : ig_graph -> ig_graph) l,
-  (forall x, up_graph (f x) = g (up_graph x)) -> map g (map up_graph l) = map up_graph (map f l).
-Proof. intros. rewrite !map_map. apply map_ext. intros. now rewrite H. Qed.
-
-(** ** later_indexes *)
-Lemma py_in_mem : forall s l, py_in String.eqb s l = M.mem s l.
-Proof. reflexivity. Qed.
-
-Lemma up_later : forall g, ig_later_indexes (up_graph g) = M.later_indexes g.
-Proof.
-  induction g using graph_ind2; simpl; [reflexivity | now rewrite IHg |].
-  induction H as [|t r Ht _ IH]; simpl; [reflexivity|]. now rewrite Ht, IH.
-Qed.
-
-(** ** merge_add / merge_multiply *)
-Definition iter_tail (i : string) (o : option TensorLayer) : ig_graph -> pgen ig_graph :=
-  fun tail => g_yield (IgIterationNode i o tail).
-
-Lemma merge_add_TI : forall le ri ro rn,
-  merge_add (IgTerminalNode le) (IgIterationNode ri ro rn)
-  = g_for (merge_add (IgTerminalNode le) rn) (iter_tail ri ro).
-Proof. reflexivity. Qed.
-Lemma merge_add_IT : forall li lo ln re,
-  merge_add (IgIterationNode li lo ln) (IgTerminalNode re)
-  = g_for (merge_add ln (IgTerminalNode re)) (iter_tail li lo).
-Proof. reflexivity. Qed.
-Lemma merge_add_II : forall li lo ln ri ro rn,
-  merge_add (IgIterationNode li lo ln) (IgIterationNode ri ro rn)
-  = if String.eqb li ri then g_for (merge_add ln rn) (iter_tail li lo)
-    else g_seq (if negb (py_in String.eqb li (ig_later_indexes rn))
-                then g_for (merge_add ln (IgIterationNode ri ro rn)) (iter_tail li lo) else g_done)
-               (if negb (py_in String.eqb ri (ig_later_indexes ln))
-                then g_for (merge_add (IgIterationNode li lo ln) rn) (iter_tail ri ro) else g_done).
-Proof. reflexivity. Qed.
-
-Lemma merge_multiply_TI : forall le ri ro rn,
-  merge_multiply (IgTerminalNode le) (IgIterationNode ri ro rn)
-  = g_for (merge_multiply (IgTerminalNode le) rn) (iter_tail ri ro).
-Proof. reflexivity. Qed.
-Lemma merge_multiply_IT : forall li lo ln re,
-  merge_multiply (IgIterationNode li lo ln) (IgTerminalNode re)
-  = g_for (merge_multiply ln (IgTerminalNode re)) (iter_tail li lo).
-Proof. reflexivity. Qed.
-Lemma merge_multiply_II : forall li lo ln ri ro rn,
-  merge_multiply (IgIterationNode li lo ln) (IgIterationNode ri ro rn)
-  = if String.eqb li ri then g_for (merge_multiply ln rn) (iter_tail li lo)
-    else g_seq (if negb (py_in String.eqb li (ig_later_indexes rn))
-                then g_for (merge_multiply ln (IgIterationNode ri ro rn)) (iter_tail li lo) else g_done)
-               (if negb (py_in String.eqb ri (ig_later_indexes ln))
-                then g_for (merge_multiply (IgIterationNode li lo ln) rn) (iter_tail ri ro) else g_done).
-Proof. reflexivity. Qed.
-
-Lemma m_merge_II : forall mk li lo ln ri ro rn,
-  M.merge_with mk (M.IterationNode li lo ln) (M.IterationNode ri ro rn)
-  = if String.eqb li ri then map (M.IterationNode li lo) (M.merge_with mk ln rn)
-    else (if negb (M.mem li (M.later_indexes rn))
-          then map (M.IterationNode li lo) (M.merge_with mk ln (M.IterationNode ri ro rn)) else [])
-         ++ (if negb (M.mem ri (M.later_indexes ln))
-             then map (M.IterationNode ri ro) (M.merge_with mk (M.IterationNode li lo ln) rn) else []).
-Proof. reflexivity. Qed.
-Lemma m_merge_TI : forall mk le ri ro rn,
-  M.merge_with mk (M.TerminalNode le) (M.IterationNode ri ro rn)
-  = map (M.IterationNode ri ro) (M.merge_with mk (M.TerminalNode le) rn).
-Proof. reflexivity. Qed.
-Lemma m_merge_IT : forall mk li lo ln re,
-  M.merge_with mk (M.IterationNode li lo ln) (M.TerminalNode re)
-  = map (M.IterationNode li lo) (M.merge_with mk ln (M.TerminalNode re)).
-Proof. reflexivity. Qed.
-
-Lemma g_for_iter_tail : forall i o l,
-  g_for (map up_graph l, None) (iter_tail i (option_map up_ol o))
-  = (map up_graph (map (M.IterationNode i o) l), None).
-Proof. intros. unfold iter_tail. rewrite g_for_yield, !map_map. reflexivity. Qed.
-
-Lemma if_gen : forall (c : bool) (l : list M.graph),
-  (if c then (map up_graph l, @None string) else g_done) = (map up_graph (if c then l else []), None).
-Proof. now destruct c. Qed.
-
-Lemma merge_add_equiv : forall l r,
-  merge_add (up_graph l) (up_graph r) = (map up_graph (M.merge_add l r), None).
-Proof.
-  unfold M.merge_add.
-  induction l as [le | li lo ln IHl | ln lts _] using graph_ind2;
-    induction r as [re | ri ro rn IHr | rn rts _] using graph_ind2; try reflexivity.
-  - cbn [up_graph]. rewrite merge_add_TI, m_merge_TI.
-    change (IgTerminalNode (up_iexpr le)) with (up_graph (M.TerminalNode le)).
-    now rewrite IHr, g_for_iter_tail.
-  - cbn [up_graph]. rewrite merge_add_IT, m_merge_IT.
-    change (IgTerminalNode (up_iexpr re)) with (up_graph (M.TerminalNode re)).
-    now rewrite IHl, g_for_iter_tail.
-  - cbn [up_graph]. rewrite merge_add_II, m_merge_II.
-    change (IgIterationNode ri (option_map up_ol ro) (up_graph rn)) with (up_graph (M.IterationNode ri ro rn)).
-    change (IgIterationNode li (option_map up_ol lo) (up_graph ln)) with (up_graph (M.IterationNode li lo ln)).
-    rewrite !IHl, IHr, !g_for_iter_tail, !up_later, !py_in_mem, !if_gen, g_seq_pure.
-    destruct (String.eqb li ri); [reflexivity|]. now rewrite map_app.
-Qed.
-
-Lemma merge_multiply_equiv : forall l r,
-  merge_multiply (up_graph l) (up_graph r) = (map up_graph (M.merge_multiply l r), None).
-Proof.
-  unfold M.merge_multiply.
-  induction l as [le | li lo ln IHl | ln lts _] using graph_ind2;
-    induction r as [re | ri ro rn IHr | rn rts _] using graph_ind2; try reflexivity.
-  - cbn [up_graph]. rewrite merge_multiply_TI, m_merge_TI.
-    change (IgTerminalNode (up_iexpr le)) with (up_graph (M.TerminalNode le)).
-    now rewrite IHr, g_for_iter_tail.
-  - cbn [up_graph]. rewrite merge_multiply_IT, m_merge_IT.
-    change (IgTerminalNode (up_iexpr re)) with (up_graph (M.TerminalNode re)).
-    now rewrite IHl, g_for_iter_tail.
-  - cbn [up_graph]. rewrite merge_multiply_II, m_merge_II.
-    change (IgIterationNode ri (option_map up_ol ro) (up_graph rn)) with (up_graph (M.IterationNode ri ro rn)).
-    change (IgIterationNode li (option_map up_ol lo) (up_graph ln)) with (up_graph (M.IterationNode li lo ln)).
-    rewrite !IHl, IHr, !g_for_iter_tail, !up_later, !py_in_mem, !if_gen, g_seq_pure.
-    destruct (String.eqb li ri); [reflexivity|]. now rewrite map_app.
-Qed.
-
-End WithFloats.
-
-(** ** legal_iteration_orders *)
-Lemma map_flat_map' : forall A B C (f : B -> C) (g : A -> list B) l,
-  map f (flat_map g l) = flat_map (fun x => map f (g x)) l.
-Proof. induction l; simpl; [reflexivity|]. now rewrite map_app, IHl. Qed.
-
-Lemma it_pick_map : forall A B (f : A -> B) k l,
-  it_pick k (map f l) = option_map (fun xr => (f (fst xr), map f (snd xr))) (M.pick k l).
-Proof.
-  induction k; destruct l; simpl; try reflexivity.
-  rewrite IHk. destruct (M.pick k l) as [[y r]|]; reflexivity.
-Qed.
-
-Lemma it_perms_map : forall A B (f : A -> B) n l,
-  it_perms_fuel n (map f l) = map (map f) (M.perms_fuel n l).
-Proof.
-  induction n; intros l; simpl; [reflexivity|].
-  rewrite map_length, map_flat_map'. apply flat_map_ext. intros k.
-  rewrite it_pick_map. destruct (M.pick k l) as [[y r]|]; simpl; [|reflexivity].
-  rewrite IHn, !map_map. reflexivity.
-Qed.
-
-Lemma it_permutations_map : forall A B (f : A -> B) l,
-  it_permutations (map f l) = map (map f) (M.permutations l).
-Proof. intros. unfold it_permutations, M.permutations. rewrite map_length. apply it_perms_map. Qed.
-
-Lemma it_product_chain : forall A (ls : list (list (list A))),
-  map (@List.concat A) (it_product ls) = M.product_chain ls.
-Proof.
-  induction ls as [|c r IH]; simpl; [reflexivity|].
-  rewrite map_flat_map'. apply flat_map_ext. intros x. rewrite map_map. simpl.
-  rewrite <- IH, map_map. reflexivity.
-Qed.
-
-Lemma product_chain_map : forall A B (f : A -> B) (ls : list (list (list A))),
-  M.product_chain (map (map (map f)) ls) = map (map f) (M.product_chain ls).
-Proof.
-  induction ls as [|c r IH]; simpl; [reflexivity|].
-  rewrite map_flat_map', flat_map_concat_map, map_map, <- flat_map_concat_map.
-  apply flat_map_ext. intros x. rewrite IH, !map_map. apply map_ext. intros y. now rewrite map_app.
-Qed.
-
-Definition upn (l : list nat) : list Z := map Z.of_nat l.
-
-Lemma append_to_last_up : forall gs i, gs <> [] ->
-  append_to_last (map upn gs) (Z.of_nat i) = POk (map upn (M.append_last i gs)).
-Proof.
-  induction gs as [|g r IH]; intros i Hne; [congruence|].
-  destruct r as [|g' r'].
-  - simpl. unfold upn. now rewrite map_app.
-  - specialize (IH i ltac:(discriminate)).
-    change (append_to_last (map upn (g :: g' :: r')) (Z.of_nat i))
-      with (match append_to_last (map upn (g' :: r')) (Z.of_nat i) with
-            | POk r'' => POk (upn g :: r'') | PRaise e => PRaise e end).
-    rewrite IH. reflexivity.
-Qed.
-
-Lemma append_last_nonempty : forall i gs, M.append_last i gs <> [].
-Proof. destruct gs as [|g [|g' r]]; simpl; discriminate. Qed.
-
-Section Orders.
-  Variable step : list (list Z) * bool -> Z * Mode -> pres (list (list Z) * bool).
-  Hypothesis step_dense_restart : forall gs i, step (gs, true) (i, Mode_dense) = POk (gs ++ [[i]], false).
-  Hypothesis step_dense_continue : forall gs i,
-    step (gs, false) (i, Mode_dense) = r_bind (append_to_last gs i) (fun g => POk (g, false)).
-  Hypothesis step_compressed : forall gs r i, step (gs, r) (i, Mode_compressed) = POk (gs ++ [[i]], true).
-
-  Lemma lio_fold : forall ms i restart gs, (restart = false -> gs <> []) ->
-    exists r', r_fold step (py_enumerate_from (Z.of_nat i) (map up_mode ms)) (map upn gs, restart)
-               = POk (map upn (M.groups_from ms i restart gs), r').
-  Proof.
-    induction ms as [|m r IH]; intros i restart gs Hinv; [eexists; reflexivity|].
-    cbn [map py_enumerate_from M.groups_from].
-    replace (Z.of_nat i + 1)%Z with (Z.of_nat (S i)) by lia.
-    change (r_fold step ((Z.of_nat i, up_mode m) :: ?l) ?acc)
-      with (match step acc (Z.of_nat i, up_mode m) with PRaise e => PRaise e | POk acc' => r_fold step l acc' end).
-    destruct m; cbn [up_mode].
-    - destruct restart.
-      + rewrite step_dense_restart.
-        replace (map upn gs ++ [[Z.of_nat i]]) with (map upn (gs ++ [[i]])) by (now rewrite map_app).
-        apply IH. intros _. destruct gs; discriminate.
-      + rewrite step_dense_continue, append_to_last_up by auto. cbn [r_bind].
-        apply IH. intros _. apply append_last_nonempty.
-    - rewrite step_compressed.
-      replace (map upn gs ++ [[Z.of_nat i]]) with (map upn (gs ++ [[i]])) by (now rewrite map_app).
-      apply IH. discriminate.
-  Qed.
-End Orders.
-
-Theorem legal_iteration_orders_equiv : forall f,
-  legal_iteration_orders (up_format f) = (map upn (M.legal_iteration_orders f), None).
-Proof.
-  intros f. unfold legal_iteration_orders, M.legal_iteration_orders, M.reorderable_groups.
-  match goal with |- context [r_fold ?st _ _] => set (step := st) end.
-  destruct (lio_fold step) with (ms := M.f_modes f) (i := 0) (restart := true) (gs := @nil (list nat))
-    as [r' E]; try (intros; reflexivity); try discriminate.
-  { intros gs i. unfold step. cbn. destruct (append_to_last gs i); reflexivity. }
-  cbv zeta. unfold py_enumerate. cbn [up_format Format_modes]. simpl (map upn []) in E. simpl (Z.of_nat 0) in E.
-  rewrite E. cbn [g_bind]. unfold g_of_list. rewrite g_for_yield.
-  rewrite it_product_chain. f_equal. unfold upn.
-  rewrite <- product_chain_map. f_equal.
-  rewrite !map_map. apply map_ext. intros g. apply it_permutations_map.
-Qed.
-
-(** ** contains_contraction *)
-Lemma contains_contraction_equiv : forall fval e,
-  contains_contraction (up_dexpr fval e) = M.contains_contraction e.
-Proof. induction e; simpl; congruence. Qed.
-
-(** ** the filters on the target chain, and merge_assignment *)
-Lemma r_map_ok : forall A B (f : A -> pres B) (h : A -> B) l,
-  (forall x, In x l -> f x = POk (h x)) -> r_map f l = POk (map h l).
-Proof.
-  induction l as [|x r IH]; intros H; [reflexivity|].
-  change (r_map f (x :: r)) with (match f x with PRaise e => PRaise e | POk y =>
-    match r_map f r with PRaise e => PRaise e | POk ys => POk (y :: ys) end end).
-  rewrite (H x (or_introl eq_refl)), IH by (intros; apply H; now right). reflexivity.
-Qed.
-
-Lemma r_map_map : forall A B C (g : A -> B) (f : B -> pres C) l,
-  r_map f (map g l) = r_map (fun x => f (g x)) l.
-Proof.
-  induction l as [|x r IH]; [reflexivity|].
-  change (r_map f (map g (x :: r))) with (match f (g x) with PRaise e => PRaise e | POk y =>
-    match r_map f (map g r) with PRaise e => PRaise e | POk ys => POk (y :: ys) end end).
-  rewrite IH. reflexivity.
-Qed.
-
-Lemma skipn_map' : forall A B (f : A -> B) n l, skipn n (map f l) = map f (skipn n l).
-Proof. induction n; destruct l; simpl; auto. Qed.
-
-Lemma it_product_map : forall A B (f : A -> B) (ls : list (list A)),
-  it_product (map (map f) ls) = map (map f) (M.product ls).
-Proof.
-  induction ls as [|c r IH]; simpl; [reflexivity|].
-  rewrite map_flat_map', flat_map_concat_map, map_map, <- flat_map_concat_map.
-  apply flat_map_ext. intros x. rewrite IH, !map_map. reflexivity.
-Qed.
-
-(** what [target_order_supported] computes, on the model's representation of a target chain
-    (the hand model model/Graphs.v predates commit 601f2d3 and has no such filter) *)
-Fixpoint target_supported_from (n : nat) (tgt : list M.tlayer) : bool :=
-  match tgt with
-  | [] => true
-  | (_, l) :: r =>
-      if negb (Nat.eqb (M.ol_layer l) n)
-      then forallb M.is_dense (skipn n (M.t_modes (M.ol_tensor l)))
-      else target_supported_from (S n) r
-  end.
-Definition target_supported (tgt : list M.tlayer) : bool := target_supported_from 0 tgt.
-
-Section Assign.
-  Variable fval : string -> F.
-  Notation up := (up_graph fval).
-
-  Variable ol : pydict string TensorLayer.
-  Variable bottom : M.iexpr.
-
-  Definition tgt_graph (tgt : list M.tlayer) : ig_graph :=
-    up (M.chain_graph (map fst tgt) (M.TerminalNode bottom)).
-
-  (** the dictionary [output_layers] agrees with the chain, and every layer has a mode *)
-  Definition tgt_ok (tgt : list M.tlayer) : Prop :=
-    forall i l, In (i, l) tgt ->
-      dict_get String.eqb i ol = Some (up_ol l) /\ M.ol_mode l <> None.
-
-  Lemma tgt_ok_tail : forall x r, tgt_ok (x :: r) -> tgt_ok r.
-  Proof. intros x r H i l Hin. apply H. now right. Qed.
-
-  Lemma layer_mode_up : forall l m, M.ol_mode l = Some m -> TensorLayer_mode (up_ol l) = POk (up_mode m).
-  Proof.
-    intros l m H. unfold TensorLayer_mode, up_ol, M.ol_mode in *. cbn.
-    unfold py_getitem. destruct (0 <=? Z.of_nat (M.ol_layer l))%Z eqn:E; [|lia].
-    rewrite Nat2Z.id, nth_error_map, H. reflexivity.
-  Qed.
-
-  Lemma pending_step : forall i o n,
-    target_has_pending_compressed (IgIterationNode i o n) ol
-    = r_bind (r_bind (r_bind (r_of_opt "KeyError" (dict_get String.eqb i ol)) TensorLayer_mode)
-                     (fun v => POk (Mode_eqb v Mode_compressed)))
-             (fun c => if c then POk true else target_has_pending_compressed n ol).
-  Proof. reflexivity. Qed.
-
-  Lemma pending_equiv : forall tgt, tgt_ok tgt ->
-    target_has_pending_compressed (tgt_graph tgt) ol = POk (M.pending_compressed tgt).
-  Proof.
-    unfold tgt_graph.
-    induction tgt as [|[i l] r IH]; intros H; [reflexivity|].
-    cbn [map fst M.chain_graph up_graph]. rewrite pending_step.
-    destruct (H i l (or_introl eq_refl)) as [Hd Hm]. rewrite Hd. cbn [r_of_opt r_bind].
-    destruct (M.ol_mode l) as [m|] eqn:Em; [|congruence].
-    rewrite (layer_mode_up _ _ Em). cbn [r_bind].
-    unfold M.pending_compressed. cbn [existsb snd]. rewrite Em.
-    destruct m; cbn [up_mode Mode_eqb orb].
-    - apply IH. eapply tgt_ok_tail; eauto.
-    - reflexivity.
-  Qed.
-
-  Lemma supported_from_equiv : forall tgt n, tgt_ok tgt ->
-    (fix loop_1 (node : ig_graph) (next_layer : Z) {struct node} : pres bool :=
-       match node with
-       | IgIterationNode node_index_variable _ node_next =>
-           r_bind (r_of_opt "KeyError" (dict_get String.eqb node_index_variable ol)) (fun layer =>
-           if negb (Z.eqb (TensorLayer_layer layer) next_layer)
-           then r_bind (r_bind (r_bind (id_expr_get_modes (TensorLayer_tensor layer))
-                  (fun v_2 => POk (py_slice_from v_2 next_layer)))
-                  (fun v_3 => POk (map (fun mode => Mode_eqb mode Mode_dense) v_3)))
-                  (fun v_4 => POk (forallb (fun b_ => b_) v_4))
-           else let next_layer := (next_layer + 1)%Z in loop_1 node_next next_layer)
-       | _ => POk true
-       end) (tgt_graph tgt) (Z.of_nat n) = POk (target_supported_from n tgt).
-  Proof.
-    unfold tgt_graph.
-    induction tgt as [|[i l] r IH]; intros n H; [reflexivity|].
-    cbn [map fst M.chain_graph up_graph]. cbn fix beta iota.
-    destruct (H i l (or_introl eq_refl)) as [Hd _]. rewrite Hd. cbn [r_of_opt r_bind].
-    cbn [target_supported_from up_ol TensorLayer_layer TensorLayer_tensor].
-    replace (Z.of_nat (M.ol_layer l) =? Z.of_nat n)%Z with (Nat.eqb (M.ol_layer l) n)
-      by (destruct (Nat.eqb_spec (M.ol_layer l) n); [subst; now rewrite Z.eqb_refl | symmetry; apply Z.eqb_neq; lia]).
-    destruct (Nat.eqb (M.ol_layer l) n); cbn [negb].
-    - replace (Z.of_nat n + 1)%Z with (Z.of_nat (S n)) by lia. apply IH. eapply tgt_ok_tail; eauto.
-    - cbn. unfold py_slice_from. destruct (0 <=? Z.of_nat n)%Z eqn:E; [|lia].
-      rewrite Nat2Z.id. f_equal. rewrite skipn_map', map_map.
-      generalize (skipn n (M.t_modes (M.ol_tensor l))). induction l0 as [|m r' IHr]; [reflexivity|].
-      simpl. rewrite IHr. now destruct m.
-  Qed.
-
-  Lemma supported_equiv : forall tgt, tgt_ok tgt ->
-    target_order_supported (tgt_graph tgt) ol = POk (target_supported tgt).
-  Proof. intros tgt H. apply (supported_from_equiv tgt 0 H). Qed.
-End Assign.
-
-(** ** merge_assignment *)
-Definition simplify_hyp (fval : string -> F) : Prop :=
-  forall name ts,
-    simplify_add (S (ig_graph_size (IgSumNode sum_name (map (up_graph fval) ts))))
-                 (IgSumNode sum_name (map (up_graph fval) ts))
-    = POk (up_graph fval (M.simplify_add name ts)).
-
-Lemma ma_T_any : forall te e ol, merge_assignment (IgTerminalNode te) e ol = g_yield e.
-Proof. destruct e; reflexivity. Qed.
-Lemma ma_I_T : forall ti to tn ee ol,
-  merge_assignment (IgIterationNode ti to tn) (IgTerminalNode ee) ol
-  = g_bind (r_of_opt "KeyError" (dict_get String.eqb ti ol)) (fun leaf =>
-      g_for (merge_assignment tn (IgTerminalNode ee) ol) (iter_tail ti (Some leaf))).
-Proof. reflexivity. Qed.
-Lemma ma_I_I : forall ti to tn ei eo en ol,
-  merge_assignment (IgIterationNode ti to tn) (IgIterationNode ei eo en) ol
-  = if String.eqb ti ei
-    then g_bind (r_of_opt "KeyError" (dict_get String.eqb ti ol)) (fun leaf =>
-           g_for (merge_assignment tn en ol) (iter_tail ti (Some leaf)))
-    else g_seq
-      (if negb (py_in String.eqb ti (ig_later_indexes en))
-       then g_bind (r_of_opt "KeyError" (dict_get String.eqb ti ol)) (fun leaf =>
-              g_for (merge_assignment tn (IgIterationNode ei eo en) ol) (iter_tail ti (Some leaf)))
-       else g_done)
-      (g_bind (r_bind (POk (negb (py_in String.eqb ei (ig_later_indexes tn))))
-                 (fun b => if b then r_bind (target_has_pending_compressed (IgIterationNode ti to tn) ol)
-                                            (fun v => POk (negb v)) else POk false))
-         (fun c => if c then g_for (merge_assignment (IgIterationNode ti to tn) en ol) (iter_tail ei eo)
-                   else g_done)).
-Proof. reflexivity. Qed.
-Lemma ma_I_S : forall ti to tn name terms ol,
-  merge_assignment (IgIterationNode ti to tn) (IgSumNode name terms) ol
-  = g_bind (r_bind (r_map (fun term => g_collect (merge_assignment (IgIterationNode ti to tn) term ol)) terms)
-                   (fun ls => POk (it_product ls)))
-      (fun xs => g_for (g_of_list xs) (fun merged =>
-         g_bind (simplify_add (S (ig_graph_size (IgSumNode name merged))) (IgSumNode name merged))
-                (fun y => g_yield y))).
-Proof. reflexivity. Qed.
-
-Section Assign2.
-  Variable fval : string -> F.
-  Notation up := (up_graph fval).
-  Hypothesis Hsimp : simplify_hyp fval.
-  Variable ol : pydict string TensorLayer.
-  Variable bottom : M.iexpr.
-
-  Lemma later_chain : forall ixs b, M.later_indexes (M.chain_graph ixs (M.TerminalNode b)) = ixs.
-  Proof. induction ixs; simpl; congruence. Qed.
-
-  Lemma g_for_iter_tail_some : forall i l gs,
-    g_for (map up gs, None) (iter_tail i (Some (up_ol l)))
-    = (map up (map (M.IterationNode i (Some l)) gs), None).
-  Proof. intros. apply (g_for_iter_tail fval i (Some l)). Qed.
-
-  Lemma merge_assignment_equiv : forall e tgt, tgt_ok ol tgt ->
-    merge_assignment (tgt_graph fval bottom tgt) (up e) ol = (map up (M.merge_assignment e tgt), None).
-  Proof.
-    induction e as [ee | ei eo en IHe | name terms IHt] using graph_ind2.
-    - (* terminal *)
-      induction tgt as [|[ti tl] ts IH]; intros Hok.
-      + unfold tgt_graph. cbn [map M.chain_graph up_graph]. now rewrite ma_T_any.
-      + unfold tgt_graph in *. cbn [map fst M.chain_graph up_graph]. cbn [up_graph] in IH.
-        rewrite ma_I_T. destruct (Hok ti tl (or_introl eq_refl)) as [Hd _]. rewrite Hd. cbn [r_of_opt g_bind].
-        rewrite IH by (eapply tgt_ok_tail; eauto).
-        rewrite g_for_iter_tail_some. reflexivity.
-    - (* iteration node *)
-      induction tgt as [|[ti tl] ts IH]; intros Hok.
-      + unfold tgt_graph. cbn [map M.chain_graph]. cbn [up_graph]. now rewrite ma_T_any.
-      + pose proof (tgt_ok_tail _ _ _ Hok) as Hok'.
-        destruct (Hok ti tl (or_introl eq_refl)) as [Hd _].
-        specialize (IH Hok').
-        pose proof (IHe ts Hok') as IHe1.
-        pose proof (IHe ((ti, tl) :: ts) Hok) as IHe2.
-        pose proof (pending_equiv fval ol bottom _ Hok) as Hp.
-        unfold tgt_graph in *. cbn [map fst M.chain_graph] in *. cbn [up_graph] in *.
-        rewrite ma_I_I, Hp, Hd, IHe1, IHe2, IH. cbn [r_of_opt g_bind r_bind].
-        rewrite !g_for_iter_tail_some, (g_for_iter_tail fval ei eo), !up_later, later_chain.
-        repeat change (py_in String.eqb ?a ?b) with (M.mem a b).
-        rewrite GraphsAssign.ma_I.
-        destruct (String.eqb ti ei); [reflexivity|].
-        unfold M.tlayer in *.
-        destruct (M.mem ti (M.later_indexes en)); destruct (M.mem ei (map fst ts));
-          destruct (M.pending_compressed ((ti, tl) :: ts)); cbn [negb andb r_bind g_bind];
-          unfold g_done; rewrite ?g_seq_pure, ?map_app, ?app_nil_r; reflexivity.
-    - (* sum node *)
-      intros tgt Hok. destruct tgt as [|[ti tl] ts].
-      + unfold tgt_graph. cbn [map M.chain_graph]. cbn [up_graph]. now rewrite ma_T_any.
-      + rewrite GraphsAssign.ma_S.
-        unfold tgt_graph in *. cbn [map fst M.chain_graph] in *. cbn [up_graph] in *.
-        rewrite ma_I_S.
-        rewrite r_map_map.
-        rewrite (r_map_ok _ _ _ (fun t => map up (M.merge_assignment t ((ti, tl) :: ts)))).
-        2:{ intros t Ht. rewrite Forall_forall in IHt.
-            pose proof (IHt t Ht ((ti, tl) :: ts) Hok) as E.
-            cbn [map fst M.chain_graph] in E. cbn [up_graph] in E. rewrite E. reflexivity. }
-        cbn [r_bind g_bind]. unfold g_of_list.
-        replace (map (fun x => map up (M.merge_assignment x ((ti, tl) :: ts))) terms)
-          with (map (map up) (map (fun t => M.merge_assignment t ((ti, tl) :: ts)) terms))
-          by (now rewrite map_map).
-        rewrite it_product_map.
-        rewrite g_for_map.
-        rewrite (g_for_pure _ _ (fun merged => [up (M.simplify_add name merged)])).
-        * f_equal. rewrite !map_map, flat_map_single. reflexivity.
-        * intros m _. rewrite (Hsimp name m). reflexivity.
-  Qed.
-End Assign2.
-
-(** ** to_iteration_graphs_expression *)
-Lemma dict_get_up_formats : forall k fs,
-  dict_get String.eqb k (up_formats fs) = option_map up_format (M.lookup k fs).
-Proof.
-  induction fs as [|[k' f] r IH]; [reflexivity|]. simpl. destruct (String.eqb k k'); [reflexivity | apply IH].
-Qed.
-
-Lemma py_getitem_nat : forall A (l : list A) n, py_getitem l (Z.of_nat n) = nth_error l n.
-Proof. intros. unfold py_getitem. destruct (0 <=? Z.of_nat n)%Z eqn:E; [now rewrite Nat2Z.id | lia]. Qed.
-
-Lemma r_map_cons : forall A B (f : A -> pres B) x r,
-  r_map f (x :: r) = match f x with PRaise e => PRaise e | POk y =>
-    match r_map f r with PRaise e => PRaise e | POk ys => POk (y :: ys) end end.
-Proof. reflexivity. Qed.
-
-Lemma r_fold_cons : forall A S (f : S -> A -> pres S) x r acc,
-  r_fold f (x :: r) acc = match f acc x with PRaise e => PRaise e | POk acc' => r_fold f r acc' end.
-Proof. reflexivity. Qed.
-
-Lemma r_fold_app : forall A S (f : S -> A -> pres S) l1 l2 acc,
-  r_fold f (l1 ++ l2) acc = r_bind (r_fold f l1 acc) (r_fold f l2).
-Proof.
-  induction l1 as [|x r IH]; intros; [reflexivity|].
-  rewrite <- app_comm_cons, !r_fold_cons. destruct (f acc x); [apply IH | reflexivity].
-Qed.
-
-Lemma permute_indexes_up : forall idx ord,
-  r_map (fun i => r_of_opt "IndexError" (py_getitem idx i)) (map Z.of_nat ord)
-  = match M.permute_indexes idx ord with Some ivs => POk ivs | None => PRaise "IndexError" end.
-Proof.
-  induction ord as [|o r IH]; [reflexivity|].
-  cbn [map M.permute_indexes]. rewrite r_map_cons, py_getitem_nat, IH.
-  destruct (nth_error idx o); cbn [r_of_opt]; [|reflexivity].
-  destruct (M.permute_indexes idx r); reflexivity.
-Qed.
-
-Lemma set_of_list_length : forall l, (List.length (set_of_list String.eqb l) <= List.length l)%nat.
-Proof. induction l; simpl; [lia|]. destruct (py_in String.eqb a l); simpl; lia. Qed.
-
-Lemma nodup_len : forall l,
-  Z.eqb (Z.of_nat (List.length (set_of_list String.eqb l))) (Z.of_nat (List.length l)) = M.nodupb l.
-Proof.
-  induction l as [|x r IH]; [reflexivity|].
-  cbn [set_of_list M.nodupb]. change (py_in String.eqb x r) with (M.mem x r).
-  destruct (M.mem x r); cbn [negb andb].
-  - pose proof (set_of_list_length r). apply Z.eqb_neq. simpl. lia.
-  - rewrite <- IH. simpl List.length.
-    destruct (Z.eqb_spec (Z.of_nat (List.length (set_of_list String.eqb r))) (Z.of_nat (List.length r)));
-      [apply Z.eqb_eq | apply Z.eqb_neq]; lia.
-Qed.
-
-Section Chain.
-  Variable fval : string -> F.
-  Notation up := (up_graph fval).
-  Variable ivs : list string.
-  Variable stepf : ig_graph -> Z -> pres ig_graph.
-  Hypothesis stepf_spec : forall g i,
-    stepf g i = r_bind (r_of_opt "IndexError" (py_getitem ivs i)) (fun iv => POk (IgIterationNode iv None g)).
-
-  Lemma chain_up : forall o b,
-    r_fold stepf (rev (upn o)) (up b)
-    = match M.chain_indexes ivs o with
-      | Some ixs => POk (up (M.chain_graph ixs b))
-      | None => PRaise "IndexError"
-      end.
-  Proof.
-    induction o as [|a r IH]; intros b; [reflexivity|].
-    unfold upn in *. cbn [map rev M.chain_indexes]. rewrite r_fold_app, IH.
-    destruct (M.chain_indexes ivs r) as [ixs|]; cbn [r_bind].
-    - rewrite r_fold_cons, stepf_spec, py_getitem_nat.
-      destruct (nth_error ivs a); reflexivity.
-    - destruct (nth_error ivs a); reflexivity.
-  Qed.
-End Chain.
-
-Lemma chain_indexes_none_iff : forall ivs o,
-  M.chain_indexes ivs o = None <-> exists x, In x o /\ (List.length ivs <= x)%nat.
-Proof.
-  induction o as [|a r IH]; simpl.
-  - split; [discriminate | intros [x [[] _]]].
-  - destruct (nth_error ivs a) eqn:E.
-    + destruct (M.chain_indexes ivs r) eqn:E2.
-      * split; [discriminate|]. intros [x [[<-|Hin] Hx]].
-        -- apply nth_error_None in Hx. congruence.
-        -- assert (@None (list string) = None) as _ by reflexivity.
-           destruct IH as [_ IH]. discriminate IH. eauto.
-      * split; [|reflexivity]. intros _. destruct IH as [IH _]. destruct (IH eq_refl) as [x [Hin Hx]]. eauto.
-    + split; [|reflexivity]. intros _. exists a. split; [now left | now apply nth_error_None].
-Qed.
-
-Lemma sequence_chain : forall ivs orders,
-  (forall o o', In o orders -> In o' orders -> forall x, In x o -> In x o') ->
-  (exists chains, M.sequence (map (M.chain_indexes ivs) orders) = Some chains
-                  /\ Forall2 (fun o c => M.chain_indexes ivs o = Some c) orders chains)
-  \/ (M.sequence (map (M.chain_indexes ivs) orders) = None
-      /\ exists o r, orders = o :: r /\ M.chain_indexes ivs o = None).
-Proof.
-  intros ivs orders Hsame.
-  destruct orders as [|o r]; [left; exists []; split; [reflexivity | constructor]|].
-  destruct (M.chain_indexes ivs o) as [c|] eqn:Eo.
-  - left.
-    assert (Hall : forall o', In o' (o :: r) -> M.chain_indexes ivs o' <> None).
-    { intros o' Hin Hn. apply chain_indexes_none_iff in Hn as [x [Hx Hl]].
-      assert (M.chain_indexes ivs o = None) by (apply chain_indexes_none_iff; exists x; split; [eapply Hsame; eauto; now left | assumption]).
-      congruence. }
-    clear Eo c Hsame. revert Hall. generalize (o :: r). induction l as [|a l IH]; intros Hall.
-    + exists []. split; [reflexivity | constructor].
-    + destruct IH as [cs [E F]]; [intros; apply Hall; now right|].
-      destruct (M.chain_indexes ivs a) as [ca|] eqn:Ea; [|exfalso; eapply Hall; [now left | eassumption]].
-      exists (ca :: cs). split; [simpl; now rewrite Ea, E | now constructor].
-  - right. split; [simpl; now rewrite Eo | eauto].
-Qed.
-
-Section Expr.
-  Variable fval : string -> F.
-  Notation up := (up_graph fval).
-  Notation upd := (up_dexpr fval).
-
-  (** relation between a regenerated generator and a model result *)
-  Definition rel (g : pgen ig_graph) (r : M.res (list M.graph)) : Prop :=
-    match r with
-    | M.ROk gs => g = (map up gs, None)
-    | M.RDiagonal => g = ([], Some "DiagonalAccessError"%string)
-    | M.RIllFormed => exists e, g = ([], Some e) /\ e <> "DiagonalAccessError"%string
-    end.
-
-  Lemma tensor_graphs_equiv : forall t fs,
-    rel (to_iteration_graphs_expression (upd (M.DTensor t)) (up_formats fs)) (M.tensor_graphs t fs).
-  Proof.
-    intros [id name idx] fs. cbn [up_dexpr to_iteration_graphs_expression M.d_id M.d_name M.d_indexes].
-    unfold M.tensor_graphs, M.identify. cbn [M.d_id M.d_name M.d_indexes].
-    rewrite dict_get_up_formats.
-    destruct (M.lookup name fs) as [f|]; cbn [option_map r_of_opt g_bind r_bind];
-      [|exists "KeyError"%string; split; [reflexivity | discriminate]].
-    cbn [up_format Format_ordering Format_modes]. rewrite permute_indexes_up.
-    destruct (M.permute_indexes idx (M.f_ordering f)) as [ivs|]; cbn [g_bind];
-      [|exists "IndexError"%string; split; [reflexivity | discriminate]].
-    cbn [M.t_indexes]. rewrite nodup_len.
-    destruct (M.nodupb ivs); cbn [negb]; [|reflexivity].
-    change (MkFormat (map up_mode (M.f_modes f)) (map Z.of_nat (M.f_ordering f))) with (up_format f).
-    rewrite legal_iteration_orders_equiv, g_for_map. cbv zeta.
-    set (tr := M.mkT id name ivs (M.f_modes f)).
-    change (IgTerminalNode (IdTensor _ name ivs (map up_mode (M.f_modes f))))
-      with (up (M.TerminalNode (M.ITensor tr))).
-    match goal with |- context [r_fold ?st _ _] => set (stepf := st) end.
-    assert (Hbody : forall o,
-      g_bind (r_fold stepf (rev (upn o)) (up (M.TerminalNode (M.ITensor tr)))) (fun graph => g_yield graph)
-      = match M.chain_indexes ivs o with
-        | Some ixs => ([up (M.chain_graph ixs (M.TerminalNode (M.ITensor tr)))], None)
-        | None => ([], Some "IndexError"%string)
-        end).
-    { intros o. rewrite (chain_up fval ivs stepf (fun g i => eq_refl)).
-      destruct (M.chain_indexes ivs o); reflexivity. }
-    destruct (sequence_chain ivs (M.legal_iteration_orders f)) as [[chains [E F2]] | [E [o [r [Eo En]]]]].
-    - intros o o' Ho Ho' x Hx.
-      apply GraphsOrders.legal_orders_perm in Ho, Ho'.
-      eapply Permutation.Permutation_in; [exact Ho'|].
-      eapply Permutation.Permutation_in; [apply Permutation.Permutation_sym; exact Ho | exact Hx].
-    - rewrite E. cbn [rel].
-      rewrite (g_for_pure _ _ (fun o => match M.chain_indexes ivs o with
-                                        | Some ixs => [up (M.chain_graph ixs (M.TerminalNode (M.ITensor tr)))]
-                                        | None => [] end)).
-      + f_equal. clear E. induction F2 as [|o c os cs Hc _ IH]; [reflexivity|]. simpl. rewrite Hc. simpl. f_equal. exact IH.
-      + intros o Ho. rewrite Hbody.
-        assert (exists c, M.chain_indexes ivs o = Some c) as [c Hc].
-        { clear -F2 Ho. induction F2 as [|o' c os cs Hc _ IH]; [destruct Ho|].
-          destruct Ho as [<-|Ho]; eauto. }
-        now rewrite Hc.
-    - rewrite E, Eo. cbn [rel]. exists "IndexError"%string. split; [|discriminate].
-      unfold g_for. cbn [fst snd g_for_items]. rewrite Hbody, En. reflexivity.
-  Qed.
-End Expr.
-
-Section Expr2.
-  Variable fval : string -> F.
-  Notation up := (up_graph fval).
-  Notation upd := (up_dexpr fval).
-  Hypothesis Hsimp : simplify_hyp fval.
-
-  Lemma for_both_rel : forall gl gr L R (bg : ig_graph -> ig_graph -> pgen ig_graph) body,
-    rel fval gl L -> rel fval gr R ->
-    (forall l r, bg (up l) (up r) = (map up (body l r), None)) ->
-    rel fval (g_for gl (fun left => g_for gr (fun right => bg left right))) (M.for_both L R body).
-  Proof.
-    intros gl gr L R bg body HL HR Hb.
-    destruct L as [ls | |]; cbn [rel] in HL.
-    - subst gl. destruct ls as [|l0 ls]; [reflexivity|].
-      cbn [M.for_both]. destruct R as [rs | |]; cbn [rel] in HR |- *.
-      + subst gr. rewrite g_for_map.
-        rewrite (g_for_pure _ _ (fun l => map up (flat_map (fun r => body l r) rs))).
-        * f_equal. rewrite !flat_map_concat_map, concat_map, !map_map. reflexivity.
-        * intros l _. rewrite g_for_map.
-          rewrite (g_for_pure _ _ (fun r => map up (body l r))) by (intros; apply Hb).
-          f_equal. rewrite !flat_map_concat_map, concat_map, !map_map. reflexivity.
-      + subst gr. reflexivity.
-      + destruct HR as [e [-> Hne]]. exists e. split; [reflexivity | assumption].
-    - subst gl. reflexivity.
-    - destruct HL as [e [-> Hne]]. exists e. split; [reflexivity | assumption].
-  Qed.
-
-  Lemma sum_graph_up : forall l r,
-    match up l, up r with
-    | IgSumNode _ lt, IgSumNode _ rt => IgSumNode sum_name (lt ++ rt)
-    | IgSumNode _ lt, _ => IgSumNode sum_name (lt ++ [up r])
-    | _, IgSumNode _ rt => IgSumNode sum_name ([up l] ++ rt)
-    | _, _ => IgSumNode sum_name ([up l] ++ [up r])
-    end = IgSumNode sum_name (map up (M.sum_terms l r)).
-  Proof.
-    intros l r. destruct l, r; cbn [up_graph M.sum_terms]; rewrite ?map_app; reflexivity.
-  Qed.
-
-  Theorem expr_graphs_equiv : forall e fs c,
-    rel fval (to_iteration_graphs_expression (upd e) (up_formats fs)) (M.expr_graphs e fs c).
-  Proof.
-    induction e as [v | h | t | l IHl r IHr | l IHl r IHr | i x IHx]; intros fs c.
-    - reflexivity.
-    - reflexivity.
-    - apply tensor_graphs_equiv.
-    - cbn [up_dexpr to_iteration_graphs_expression M.expr_graphs].
-      rewrite !contains_contraction_equiv.
-      destruct (negb (M.contains_contraction l || M.contains_contraction r)).
-      + apply for_both_rel; [apply IHl | apply IHr | apply merge_add_equiv].
-      + cbv zeta. apply for_both_rel; [apply IHl | apply IHr |].
-        intros lg rg. fold sum_name.
-        pose proof (sum_graph_up lg rg) as E. cbn [app] in E.
-        match goal with |- g_bind (simplify_add (S (ig_graph_size ?g)) ?g) _ = _ =>
-          replace g with (IgSumNode sum_name (map up (M.sum_terms lg rg)))
-        end.
-        rewrite (Hsimp c). reflexivity.
-    - cbn [up_dexpr to_iteration_graphs_expression M.expr_graphs].
-      apply for_both_rel; [apply IHl | apply IHr | apply merge_multiply_equiv].
-    - cbn [up_dexpr to_iteration_graphs_expression M.expr_graphs]. apply IHx.
-  Qed.
-End Expr2.
-
-(** ** the statements exported to props/TIE_graphs.v *)
 Definition gen_legal_iteration_orders_equiv := legal_iteration_orders_equiv.
 Definition gen_merge_add_equiv := merge_add_equiv.
 Definition gen_merge_multiply_equiv := merge_multiply_equiv.
 Definition gen_contains_contraction_equiv := contains_contraction_equiv.
 Definition gen_pending_compressed_equiv := pending_equiv.
 Definition gen_target_order_supported_equiv := supported_equiv.
-Definition gen_merge_assignment_equiv_partial := merge_assignment_equiv.
 Definition gen_tensor_graphs_equiv := tensor_graphs_equiv.
-Definition gen_expr_graphs_equiv_partial := expr_graphs_equiv.
+Definition gen_simplify_add_equiv := simplify_hyp_holds.
 
-(** [simplify_hyp] is not vacuous: an instance where simplify_add really regroups (two iteration
-    nodes over the same index, one of them above a SumNode, and a terminal), by computation. *)
-Example simplify_hyp_instance :
-  let fval := fun _ : string => F0 in
-  let t n := M.TerminalNode (M.ITensor (M.mkT n "B" ["i"] [M.Dense])) in
-  let ts := [M.IterationNode "i" None (t 1); t 2;
-             M.IterationNode "i" None (M.SumNode 7 [t 3; M.IterationNode "j" None (t 4)]); t 5] in
-  simplify_add (S (ig_graph_size (IgSumNode sum_name (map (up_graph fval) ts))))
-               (IgSumNode sum_name (map (up_graph fval) ts))
-  = POk (up_graph fval (M.simplify_add 3 ts)).
-Proof. vm_compute. reflexivity. Qed.
+Theorem gen_merge_assignment_equiv : forall fval ol bottom e tgt, tgt_ok ol tgt ->
+  merge_assignment (tgt_graph fval bottom tgt) (up_graph fval e) ol
+  = (map (up_graph fval) (M.merge_assignment e tgt), None).
+Proof. intros fval. exact (merge_assignment_equiv fval (simplify_hyp_holds fval)). Qed.
+
+Theorem gen_expr_graphs_equiv : forall fval e fs c,
+  rel fval (to_iteration_graphs_expression (up_dexpr fval e) (up_formats fs)) (M.expr_graphs e fs c).
+Proof. intros fval. exact (expr_graphs_equiv fval (simplify_hyp_holds fval)). Qed.
+
+(** ** the top level: to_iteration_graphs *)
+From TV Require proofs.GraphsAssign proofs.GraphsOrders proofs.GraphsMerge.
+
+(** the model of TODAY's source: model/Graphs.v's [to_iteration_graphs] with the filter of commit
+    601f2d3 on the target chains (generator laziness: the expression generator is created only when
+    some target order is supported) *)
+Definition to_iteration_graphs_src (a : M.dassign) (fs : M.formats) : M.res (list M.graph) :=
+  match M.target_chains (M.a_target a) fs with
+  | M.ROk chains =>
+      match filter target_supported chains with
+      | [] => M.ROk []
+      | sup =>
+          match M.expr_graphs (M.a_expr a) fs 1 with
+          | M.ROk es => M.ROk (flat_map (fun tgt => flat_map (fun e => M.merge_assignment e tgt) es) sup)
+          | M.RDiagonal => M.RDiagonal
+          | M.RIllFormed => M.RIllFormed
+          end
+      end
+  | M.RDiagonal => M.RDiagonal
+  | M.RIllFormed => M.RIllFormed
+  end.
+
+(** what Format.__post_init__ guarantees and the filters need: every output layer has a mode *)
+Definition target_fmt_ok (a : M.dassign) (fs : M.formats) : bool :=
+  match M.lookup (M.d_name (M.a_target a)) fs with
+  | Some f => Nat.leb (List.length (M.f_ordering f)) (List.length (M.f_modes f))
+  | None => true
+  end.
+
+Lemma dict_get_set_same : forall V k (v : V) d, dict_get String.eqb k (dict_set String.eqb k v d) = Some v.
+Proof.
+  induction d as [|[k' v'] r IH]; cbn [dict_set dict_get]; [now rewrite String.eqb_refl|].
+  destruct (String.eqb k k') eqn:E; cbn [dict_get]; rewrite E; [reflexivity | exact IH].
+Qed.
+
+Lemma dict_get_set_other : forall V k k' (v : V) d, k <> k' ->
+  dict_get String.eqb k (dict_set String.eqb k' v d) = dict_get String.eqb k d.
+Proof.
+  intros V k k' v d Hne. induction d as [|[k2 v2] r IH]; cbn [dict_set dict_get].
+  - apply String.eqb_neq in Hne. now rewrite Hne.
+  - destruct (String.eqb k' k2) eqn:E; cbn [dict_get].
+    + apply String.eqb_eq in E. subst k2. apply String.eqb_neq in Hne. now rewrite Hne.
+    + destruct (String.eqb k k2); [reflexivity | exact IH].
+Qed.
+
+Definition dict_of {V} (kvs : list (string * V)) (d : pydict string V) : pydict string V :=
+  fold_left (fun d kv => dict_set String.eqb (fst kv) (snd kv) d) kvs d.
+
+Lemma dict_of_other : forall V (kvs : list (string * V)) d k,
+  ~ In k (map fst kvs) -> dict_get String.eqb k (dict_of kvs d) = dict_get String.eqb k d.
+Proof.
+  induction kvs as [|[k0 v0] r IH]; intros d k Hn; [reflexivity|].
+  cbn [dict_of fold_left fst snd]. fold (dict_of r (dict_set String.eqb k0 v0 d)).
+  rewrite IH by (intros C; apply Hn; now right).
+  apply dict_get_set_other. intros ->. apply Hn. now left.
+Qed.
+
+Lemma dict_of_get : forall V (kvs : list (string * V)) d k v,
+  NoDup (map fst kvs) -> In (k, v) kvs -> dict_get String.eqb k (dict_of kvs d) = Some v.
+Proof.
+  induction kvs as [|[k0 v0] r IH]; intros d k v Hnd Hin; [destruct Hin|].
+  cbn [dict_of fold_left fst snd]. fold (dict_of r (dict_set String.eqb k0 v0 d)).
+  cbn [map fst] in Hnd. inversion Hnd as [|? ? Hn0 Hnd']; subst.
+  destruct Hin as [E|Hin].
+  - injection E as -> ->. rewrite dict_of_other by assumption. apply dict_get_set_same.
+  - now apply IH.
+Qed.
+
+Lemma g_for_ext_in : forall A B (b1 b2 : B -> pgen A) items stop,
+  (forall x, In x items -> b1 x = b2 x) -> g_for (items, stop) b1 = g_for (items, stop) b2.
+Proof.
+  intros A B b1 b2 items stop. unfold g_for. cbn [fst snd].
+  induction items as [|x r IH]; intros H; [reflexivity|].
+  cbn [g_for_items]. rewrite (H x (or_introl eq_refl)), IH by (intros; apply H; now right). reflexivity.
+Qed.
+
+Lemma g_for_filter_raise : forall A B (p : B -> bool) e items,
+  g_for (items, None) (fun x => if p x then (@nil A, Some e) else g_done)
+  = match filter p items with [] => ([], None) | _ => ([], Some e) end.
+Proof.
+  intros A B p e. unfold g_for. cbn [fst snd].
+  induction items as [|x r IH]; [reflexivity|].
+  cbn [g_for_items filter]. destruct (p x); [reflexivity|].
+  rewrite IH. destruct (filter p r); reflexivity.
+Qed.
+
+Lemma g_for_filter_pure : forall A B (p : B -> bool) (h : B -> list A) items,
+  g_for (items, None) (fun x => if p x then (h x, None) else g_done)
+  = (flat_map h (filter p items), None).
+Proof.
+  intros A B p h items.
+  rewrite (g_for_pure _ _ (fun x => if p x then h x else [])).
+  - f_equal. induction items as [|x r IH]; [reflexivity|]. cbn [flat_map filter].
+    destruct (p x); cbn [flat_map]; now rewrite IH.
+  - intros x _. destruct (p x); reflexivity.
+Qed.
+
+Lemma chain_of_target_chain : forall tr o,
+  M.chain_indexes (M.t_indexes tr) o = option_map (map fst) (M.target_chain tr o).
+Proof.
+  intros tr. induction o as [|x r IH]; [reflexivity|].
+  unfold M.target_chain in *. cbn [map M.chain_indexes M.sequence].
+  destruct (nth_error (M.t_indexes tr) x); [|reflexivity].
+  rewrite IH. destruct (M.sequence _); reflexivity.
+Qed.
+
+Lemma sequence_option_map : forall A B C (F : A -> option B) (g : B -> C) l,
+  M.sequence (map (fun x => option_map g (F x)) l) = option_map (map g) (M.sequence (map F l)).
+Proof.
+  induction l as [|x r IH]; [reflexivity|]. cbn [map M.sequence].
+  destruct (F x); cbn [option_map]; [|reflexivity]. rewrite IH. destruct (M.sequence (map F r)); reflexivity.
+Qed.
+
+Lemma permute_indexes_Forall2 : forall idx ord ivs,
+  M.permute_indexes idx ord = Some ivs -> Forall2 (fun o i => nth_error idx o = Some i) ord ivs.
+Proof.
+  induction ord as [|o r IH]; intros ivs H; cbn [M.permute_indexes] in H.
+  - injection H as <-. constructor.
+  - destruct (nth_error idx o) eqn:E; [|discriminate].
+    destruct (M.permute_indexes idx r) eqn:E2; [|discriminate]. injection H as <-. constructor; auto.
+Qed.
+
+Lemma map_fst_combine_seq : forall V (g : nat -> V) (ivs : list string) k,
+  map fst (combine ivs (map g (seq k (List.length ivs)))) = ivs.
+Proof. induction ivs as [|i r IH]; intros k; [reflexivity|]. cbn. now rewrite IH. Qed.
+
+Lemma In_combine_seq : forall V (g : nat -> V) (ivs : list string) k j i,
+  nth_error ivs j = Some i -> In (i, g (k + j)%nat) (combine ivs (map g (seq k (List.length ivs)))).
+Proof.
+  induction ivs as [|x r IH]; intros k j i H; [destruct j; discriminate|].
+  destruct j as [|j]; cbn in *.
+  - injection H as ->. left. now rewrite Nat.add_0_r.
+  - right. replace (k + S j)%nat with (S k + j)%nat by lia. now apply IH.
+Qed.
+
+Definition layers_dict (tr : M.tref) : pydict string TensorLayer :=
+  dict_of (combine (M.t_indexes tr)
+             (map (fun j => up_ol (M.mkOL tr j)) (seq 0 (List.length (M.t_indexes tr))))) [].
+
+Lemma target_chain_ok : forall tr o tgt,
+  NoDup (M.t_indexes tr) -> (List.length (M.t_indexes tr) <= List.length (M.t_modes tr))%nat ->
+  M.target_chain tr o = Some tgt -> tgt_ok (layers_dict tr) tgt.
+Proof.
+  intros tr o tgt Hnd Hlen. revert tgt. unfold M.target_chain.
+  induction o as [|x r IH]; intros tgt H; cbn [map M.sequence] in H.
+  - injection H as <-. intros i l [].
+  - destruct (nth_error (M.t_indexes tr) x) as [ix|] eqn:Ex; [|discriminate].
+    destruct (M.sequence _) as [tg'|] eqn:E2; [|discriminate]. injection H as <-.
+    intros i l [E|Hin]; [|now apply (IH tg' eq_refl)].
+    injection E as <- <-. split.
+    + unfold layers_dict. apply dict_of_get.
+      * now rewrite map_fst_combine_seq.
+      * apply (In_combine_seq _ (fun j => up_ol (M.mkOL tr j)) _ 0 x ix Ex).
+    + unfold M.ol_mode. cbn [M.ol_tensor M.ol_layer]. apply nth_error_Some.
+      assert (x < List.length (M.t_indexes tr))%nat by (apply nth_error_Some; congruence). lia.
+Qed.
+
+Section DictLoop.
+  Variable tr : M.tref.
+  Variable idx : list string.
+  Variable dstep : pydict string TensorLayer -> Z * Z -> pres (pydict string TensorLayer).
+  Hypothesis dstep_ok : forall d k o i, nth_error idx o = Some i ->
+    dstep d (Z.of_nat k, Z.of_nat o) = POk (dict_set String.eqb i (up_ol (M.mkOL tr k)) d).
+
+  Lemma dict_loop : forall ord ivs k d,
+    Forall2 (fun o i => nth_error idx o = Some i) ord ivs ->
+    r_fold dstep (py_enumerate_from (Z.of_nat k) (map Z.of_nat ord)) d
+    = POk (dict_of (combine ivs (map (fun j => up_ol (M.mkOL tr j)) (seq k (List.length ivs)))) d).
+  Proof.
+    intros ord ivs k d H. revert k d. induction H as [|o i ord' ivs' Hoi _ IH]; intros k d; [reflexivity|].
+    cbn [map py_enumerate_from]. rewrite r_fold_cons, (dstep_ok _ _ _ _ Hoi).
+    replace (Z.of_nat k + 1)%Z with (Z.of_nat (S k)) by lia. rewrite IH. reflexivity.
+  Qed.
+End DictLoop.
+
+Lemma rel_sup_ok : forall fval (F : list (list M.tlayer) -> list M.graph) sup, F [] = [] ->
+  rel fval (map (up_graph fval) (F sup), None)
+      (match sup with [] => M.ROk [] | x :: r => M.ROk (F (x :: r)) end).
+Proof. intros fval F [|x r] H; cbn [rel]; [now rewrite H | reflexivity]. Qed.
+
+Lemma rel_sup_raise : forall fval (sup : list (list M.tlayer)) e r,
+  rel fval ([], Some e) r ->
+  rel fval (match sup with [] => ([], None) | _ :: _ => ([], Some e) end)
+      (match sup with [] => M.ROk [] | _ :: _ => r end).
+Proof. intros fval [|x l] e r H; [reflexivity | exact H]. Qed.
+
+Lemma g_for_id : forall A (l : list A), g_for (l, None) (fun g => g_yield g) = (l, None).
+Proof. intros. rewrite (g_for_yield _ _ (fun x => x)). now rewrite map_id. Qed.
+
+Theorem to_iteration_graphs_equiv : forall fval a fs,
+  target_fmt_ok a fs = true ->
+  rel fval (to_iteration_graphs (up_assign fval a) (up_formats fs)) (to_iteration_graphs_src a fs).
+Proof.
+  intros fval [[tid tname tidx] e] fs Hfmt.
+  unfold to_iteration_graphs_src, M.target_chains, M.identify, target_fmt_ok in *.
+  cbn [M.a_target M.a_expr M.d_name M.d_id M.d_indexes] in *.
+  unfold to_iteration_graphs, up_assign.
+  cbn [M.a_target M.a_expr up_dexpr M.d_id M.d_name M.d_indexes de_assignment_target
+       de_assignment_expression de_expr_get_name de_expr_get_indexes de_expr_get_id r_bind].
+  rewrite dict_get_up_formats.
+  destruct (M.lookup tname fs) as [f|] eqn:El; cbn [option_map r_of_opt g_bind];
+    [|exists "KeyError"%string; split; [reflexivity | discriminate]].
+  cbn [up_format Format_ordering Format_modes].
+  match goal with |- context [r_fold ?st (py_enumerate _) []] => set (dstep := st) end.
+  pose proof (permute_indexes_up tidx (M.f_ordering f)) as PU.
+  destruct (M.permute_indexes tidx (M.f_ordering f)) as [ivs|] eqn:Ep.
+  - set (tr := M.mkT tid tname ivs (M.f_modes f)).
+    assert (DS : forall d k o i, nth_error tidx o = Some i ->
+              dstep d (Z.of_nat k, Z.of_nat o) = POk (dict_set String.eqb i (up_ol (M.mkOL tr k)) d)).
+    { intros d k o i Hoi. unfold dstep. rewrite py_getitem_nat, Hoi. cbn [r_of_opt r_bind].
+      match goal with |- context [r_map ?g _] =>
+        change g with (fun i0 => r_of_opt "IndexError" (py_getitem tidx i0)) end.
+      rewrite PU. reflexivity. }
+    unfold py_enumerate.
+    pose proof (dict_loop tr tidx dstep DS _ _ 0%nat [] (permute_indexes_Forall2 _ _ _ Ep)) as DL.
+    simpl (Z.of_nat 0) in DL.
+    match type of DL with ?L = _ =>
+      match goal with |- context [r_fold dstep ?xs ?init] => change (r_fold dstep xs init) with L end end.
+    rewrite DL. clear DL.
+    cbn [g_bind].
+    change (dict_of (combine ivs (map (fun j => up_ol (M.mkOL tr j)) (seq 0 (List.length ivs)))) [])
+      with (layers_dict tr). clear DS dstep.
+    change (DeTensor (Z.of_nat tid) tname tidx) with (up_dexpr fval (M.DTensor (M.mkDT tid tname tidx))).
+    pose proof (tensor_graphs_equiv fval (M.mkDT tid tname tidx) fs) as RT.
+    unfold M.tensor_graphs, M.identify in RT. cbn [M.d_name M.d_id M.d_indexes] in RT.
+    rewrite El, Ep in RT. fold tr in RT |- *. cbn [M.t_indexes tr] in RT |- *.
+    destruct (M.nodupb ivs) eqn:End; cbn [negb] in RT |- *.
+    2:{ cbn [rel] in RT |- *. rewrite RT. reflexivity. }
+    assert (Hnd : NoDup (M.t_indexes tr)) by (apply GraphsMerge.nodupb_NoDup; exact End).
+    assert (Hlen : (List.length (M.t_indexes tr) <= List.length (M.t_modes tr))%nat).
+    { cbn [M.t_indexes M.t_modes tr]. apply Nat.leb_le in Hfmt.
+      assert (List.length ivs = List.length (M.f_ordering f)).
+      { pose proof (permute_indexes_Forall2 _ _ _ Ep) as F2. clear -F2. induction F2; cbn; congruence. }
+      lia. }
+    replace (map (M.chain_indexes ivs) (M.legal_iteration_orders f))
+      with (map (fun o => option_map (map fst) (M.target_chain tr o)) (M.legal_iteration_orders f)) in RT
+      by (apply map_ext; intros o; symmetry; apply (chain_of_target_chain tr o)).
+    rewrite sequence_option_map in RT. unfold M.tlayer in *.
+    match type of RT with context [option_map _ ?X] =>
+      match goal with |- context [M.sequence ?Y] => change (M.sequence Y) with X end;
+      destruct X as [cs|] eqn:Ecs
+    end; cbn [option_map rel] in RT |- *.
+    2:{ destruct RT as [x [-> Hx]]. exists x. split; [reflexivity | assumption]. }
+    rewrite RT, !map_map, g_for_map.
+    assert (Hok : forall tgt, In tgt cs -> tgt_ok (layers_dict tr) tgt).
+    { intros tgt Hin. pose proof (S.sequence_Forall2 _ _ _ _ _ Ecs) as F2.
+      clear -F2 Hin Hnd Hlen. induction F2 as [|o c os cs' Hc _ IH]; [destruct Hin|].
+      destruct Hin as [<-|Hin]; [eapply target_chain_ok; eauto | auto]. }
+    pose proof (gen_expr_graphs_equiv fval e fs 1) as RE.
+    set (EG := to_iteration_graphs_expression (up_dexpr fval e) (up_formats fs)) in *.
+    (* the body of the loop over the target orders *)
+    rewrite (g_for_ext_in _ _ _
+      (fun tgt => if target_supported tgt
+                  then g_for EG (fun eg => g_for (merge_assignment (tgt_graph fval (M.ITensor tr) tgt) eg (layers_dict tr))
+                                                  (fun graph => g_yield graph))
+                  else g_done)).
+    2:{ intros tgt Hin. cbv beta.
+        change (up_graph fval (M.chain_graph (map fst tgt) (M.TerminalNode (M.ITensor tr))))
+          with (tgt_graph fval (M.ITensor tr) tgt).
+        rewrite (supported_equiv fval _ (M.ITensor tr) tgt (Hok tgt Hin)). cbn [r_bind g_bind].
+        destruct (target_supported tgt); reflexivity. }
+    destruct (M.expr_graphs e fs 1) as [es| |]; cbn [rel] in RE.
+    + rewrite RE.
+      rewrite (g_for_ext_in _ _ _
+        (fun tgt => if target_supported tgt
+                    then (map (up_graph fval) (flat_map (fun e0 => M.merge_assignment e0 tgt) es), None)
+                    else g_done)).
+      2:{ intros tgt Hin. destruct (target_supported tgt); [|reflexivity].
+          rewrite g_for_map.
+          rewrite (g_for_pure _ _ (fun e0 => map (up_graph fval) (M.merge_assignment e0 tgt))).
+          - f_equal. rewrite !flat_map_concat_map, concat_map, !map_map. reflexivity.
+          - intros e0 _. rewrite (gen_merge_assignment_equiv fval _ _ e0 tgt (Hok tgt Hin)). apply g_for_id. }
+      rewrite g_for_filter_pure.
+      assert (E : forall sup, flat_map (fun x => map (up_graph fval) (flat_map (fun e0 => M.merge_assignment e0 x) es)) sup
+                  = map (up_graph fval) (flat_map (fun tgt => flat_map (fun e0 => M.merge_assignment e0 tgt) es) sup)).
+      { intros sup. rewrite !flat_map_concat_map, concat_map, !map_map. reflexivity. }
+      rewrite E.
+      apply (rel_sup_ok fval (fun s => flat_map (fun tgt => flat_map (fun e0 => M.merge_assignment e0 tgt) es) s)).
+      reflexivity.
+    + rewrite RE.
+      rewrite (g_for_ext_in _ _ _
+        (fun tgt => if target_supported tgt then ([], Some "DiagonalAccessError"%string) else g_done))
+        by (intros tgt _; destruct (target_supported tgt); reflexivity).
+      rewrite g_for_filter_raise. apply rel_sup_raise. reflexivity.
+    + destruct RE as [x [RE Hx]]. rewrite RE.
+      rewrite (g_for_ext_in _ _ _
+        (fun tgt => if target_supported tgt then ([], Some x) else g_done))
+        by (intros tgt _; destruct (target_supported tgt); reflexivity).
+      rewrite g_for_filter_raise. apply rel_sup_raise. exists x. split; [reflexivity | assumption].
+  - (* the tuple of index variables cannot be built: the first step of the dictionary loop raises *)
+    destruct (M.f_ordering f) as [|o r] eqn:Eo; [discriminate|].
+    cbn [rel]. exists "IndexError"%string. split; [|discriminate].
+    unfold py_enumerate. cbn [map py_enumerate_from]. rewrite r_fold_cons.
+    replace (dstep [] (0%Z, Z.of_nat o)) with (@PRaise (pydict string TensorLayer) "IndexError"); [reflexivity|].
+    unfold dstep. change 0%Z with (Z.of_nat 0). rewrite py_getitem_nat.
+    destruct (nth_error tidx o); cbn [r_of_opt r_bind]; [|reflexivity].
+    match goal with |- context [r_map ?g _] =>
+      change g with (fun i0 => r_of_opt "IndexError" (py_getitem tidx i0)) end.
+    rewrite PU. reflexivity.
+Qed.
+
+(** ** the C08 theorems about the enumeration of TODAY's source *)
+Module O := TV.model.OutputOrder.
+From TV Require proofs.OutputOrderWalk.
+Module W := TV.proofs.OutputOrderWalk.
+
+(** generate_code over the source's enumeration *)
+Definition generate_src (a : M.dassign) (fs : M.formats) (ks : list O.kind) : O.outcome :=
+  O.generate_r a fs (to_iteration_graphs_src a fs) ks.
+
+Lemma generate_r_internal_iff : forall a fs r ks,
+  O.generate_r a fs r ks = O.InternalAppendNextOutput
+  <-> (O.first_graph_bad_r a fs r = true /\ ks <> []).
+Proof.
+  intros a fs r ks. unfold O.generate_r, O.first_graph_bad_r, O.generate_from.
+  destruct (O.output_modes a fs) as [modes|]; [|split; [discriminate | intros [H _]; discriminate]].
+  destruct (M.best_of r) as [g| | |]; try (split; [discriminate | intros [H _]; discriminate]).
+  destruct ks as [|k ks].
+  - simpl. split; [discriminate | intros [_ H]; congruence].
+  - destruct (O.graph_bad modes g) eqn:B.
+    + rewrite (W.generate_all_bad _ _ _ _ B). split; [intros _; split; [reflexivity | discriminate] | reflexivity].
+    + pose proof (W.generate_all_not_bad modes g (k :: ks) B).
+      destruct (O.generate_all modes g (k :: ks)) as [u|[|]]; split; try discriminate; try congruence;
+        intros [? _]; discriminate.
+Qed.
+
+Theorem gen_internal_iff_first_graph_bad : forall a fs ks,
+  generate_src a fs ks = O.InternalAppendNextOutput
+  <-> (O.first_graph_bad_r a fs (to_iteration_graphs_src a fs) = true /\ ks <> []).
+Proof. intros. apply generate_r_internal_iff. Qed.
+
+(** the source's enumeration is a sub-enumeration of the hand model's *)
+Lemma src_sub_model : forall a fs,
+  match M.to_iteration_graphs a fs with
+  | M.ROk gs => exists gs', to_iteration_graphs_src a fs = M.ROk gs' /\ incl gs' gs
+  | M.RDiagonal => to_iteration_graphs_src a fs = M.RDiagonal \/ to_iteration_graphs_src a fs = M.ROk []
+  | M.RIllFormed => True
+  end.
+Proof.
+  intros a fs. unfold M.to_iteration_graphs, to_iteration_graphs_src.
+  destruct (M.target_chains (M.a_target a) fs) as [chains| |]; [|now left | exact I].
+  assert (Hincl : incl (filter target_supported chains) chains) by (intros x Hx; now apply filter_In in Hx).
+  destruct chains as [|c0 cs]; [exists []; split; [reflexivity | apply incl_refl]|].
+  destruct (M.expr_graphs (M.a_expr a) fs 1) as [es| |].
+  - destruct (filter target_supported (c0 :: cs)) as [|s0 ss] eqn:Ef.
+    + exists []. split; [reflexivity | intros x []].
+    + eexists. split; [reflexivity|]. intros g Hg.
+      apply in_flat_map in Hg as [tgt [Ht Hg]]. apply in_flat_map. exists tgt. split; [apply Hincl; exact Ht | exact Hg].
+  - destruct (filter target_supported (c0 :: cs)); [now right | now left].
+  - exact I.
+Qed.
+
+Lemma src_not_ill_formed : forall a fs,
+  M.to_iteration_graphs a fs <> M.RIllFormed -> to_iteration_graphs_src a fs <> M.RIllFormed.
+Proof.
+  intros a fs H. unfold M.to_iteration_graphs, to_iteration_graphs_src in *.
+  destruct (M.target_chains (M.a_target a) fs) as [chains| |]; [|discriminate | exact H].
+  destruct chains as [|c0 cs]; [discriminate|].
+  destruct (filter target_supported (c0 :: cs)); [discriminate|].
+  destruct (M.expr_graphs (M.a_expr a) fs 1); [discriminate | discriminate | exact H].
+Qed.
+
+Theorem gen_generate_outcomes_typed_partial : forall a fs ks,
+  O.wf_problem a fs = true -> W.typed_partial (generate_src a fs ks).
+Proof.
+  intros a fs ks WF. destruct (GraphsAssign.to_iteration_graphs_wf _ _ WF) as [NI NM].
+  pose proof (src_not_ill_formed a fs NI) as NI'. pose proof (src_sub_model a fs) as SUB.
+  unfold generate_src, O.generate_r, O.generate_from, W.typed_partial.
+  destruct (O.output_modes a fs) as [modes|] eqn:EM; [|contradiction].
+  destruct (M.best_of (to_iteration_graphs_src a fs)) as [g| | |] eqn:EB; auto.
+  - destruct (W.best_of_in _ _ EB) as [gs' [Er Hin]].
+    destruct (M.to_iteration_graphs a fs) as [gs| |] eqn:E0.
+    + destruct SUB as [gs'' [E'' Hincl]]. rewrite Er in E''. injection E'' as <-.
+      pose proof (GraphsAssign.to_iteration_graphs_complete _ _ _ _ E0 EM) as C. rewrite Forall_forall in C.
+      destruct (C _ (Hincl _ Hin)) as [T G].
+      pose proof (W.generate_all_no_write T modes g ks G).
+      destruct (O.generate_all modes g ks) as [u|[|]]; auto. contradiction.
+    + destruct SUB as [E|E]; rewrite E in Er; [discriminate|]. injection Er as <-. destruct Hin.
+    + contradiction.
+  - exfalso. destruct (to_iteration_graphs_src a fs) as [[|]| |]; simpl in EB; try discriminate. contradiction.
+Qed.
